@@ -110,7 +110,10 @@ pub fn check_faulty(text: &str, planted: &[Planted]) -> Result<Vec<String>, (Str
             let codes = codes_of(&ds);
             if planted.len() == 1 {
                 let want = planted[0].kind.code();
-                if !codes.iter().any(|c| c == want) {
+                // an unknown name assigned to an enumeration variable is either an undeclared
+                // variable or an undefined enumeration value: both codes say so
+                let alt = if planted[0].site_class.ends_with(".assigned-to-enum-variable") { "P0014" } else { want };
+                if !codes.iter().any(|c| c == want || c == alt) {
                     return Err(("wrong-code".into(), format!("single fault {} must be reported with {}, got {:?}", what, want, codes)));
                 }
             }
@@ -148,14 +151,37 @@ fn cli_agrees(text: &str, stats: &mut Stats) -> Result<(), (String, String)> {
 }
 
 fn check_tape(tape: &[u8], gates: &Gates, stats: &mut Stats, counting: bool, per_kind: usize, all_sites_limit: usize, cli_budget: &std::sync::atomic::AtomicI64) -> Result<(), Failure> {
-    let profile = Profile::default();
+    let mut profile = Profile::default();
+    // a quarter of the units also compare enumeration variables with their values
+    profile.enum_compare = crate::tape::fnv(tape) % 2 == 0;
     let mut t = Tape::new(tape);
     let unit = gen_unit(&mut t, gates, &profile);
     let derived = crate::tape::derived(tape, 256);
     let mut choice = Tape::new(&derived);
     let text = spell_unit(&unit, gates);
     let h = hash_str(&text);
-    match check_valid(&text, &unit.lib) {
+    let valid_outcome = check_valid(&text, &unit.lib);
+    // a unit that contains a known false rejection is not judged itself; its mutants are
+    let valid_outcome = if unit.tainted {
+        match valid_outcome {
+            Ok(Err(why)) if why.starts_with("P0015") || why.contains("P0015") => {
+                if counting {
+                    stats.class("valid.tainted-known-false-rejection");
+                }
+                Ok(Ok(true))
+            }
+            Err((kind, detail)) if kind == "valid-rejected" && detail.contains("P0015") => {
+                if counting {
+                    stats.class("valid.tainted-known-false-rejection");
+                }
+                Ok(Ok(true))
+            }
+            other => other,
+        }
+    } else {
+        valid_outcome
+    };
+    match valid_outcome {
         Ok(Ok(_)) => {
             if counting {
                 let nt = unit.lib.elements.len() >= 2;
